@@ -522,6 +522,43 @@ def rule_h(ctx):
     ctx.floor(R, 1)
 
 
+def rule_i(ctx, fa, ta, acc_f, acc_t, ls):
+    R = "C08.i"
+    ctx.rule(R, "iterative back-ends get the system they are made for: conjugate gradients and algebraic multigrid need a symmetric positive "
+             "definite matrix, and the only such system linear_solve builds is the pure pressure matrix returned by "
+             "eliminate_lagrange_multiplier -- the flux-eliminated system still carries the multiplier row and column (a saddle point). For "
+             "every (formulation, back-end) pair with an amg / cg back-end that is not rejected explicitly, the matrix handed to the set-up "
+             "method must be the first result of eliminate_lagrange_multiplier")
+    for f_lit in acc_f:
+        body = branch_body(ls.node, fa, f_lit)
+        if body is None:
+            continue
+        # names / attributes bound to the first result of self.eliminate_lagrange_multiplier(...) in this branch
+        spd = set()
+        for st in body:
+            for a in ast.walk(st):
+                if isinstance(a, ast.Assign) and isinstance(a.value, ast.Call) and norm(a.value.func) == "self.eliminate_lagrange_multiplier":
+                    t = a.targets[0]
+                    if isinstance(t, (ast.Tuple, ast.List)) and t.elts:
+                        spd.add(norm(t.elts[0]))
+        rejected = any(isinstance(a, (ast.Assert, ast.Raise)) for st in body[:3] for a in ast.walk(st))
+        for t_lit, meth in (("amg", "self.setup_amg_solver"), ("cg", "self.setup_cg_solver")):
+            if t_lit not in acc_t:
+                continue
+            calls = [c for st in body for c in ast.walk(st) if isinstance(c, ast.Call) and norm(c.func) == meth and c.args]
+            if not calls:
+                if not rejected:
+                    ctx.note(f"{R}: ({f_lit}, {t_lit}): no call of {meth} in the branch")
+                continue
+            ctx.instance(R)
+            for c in calls:
+                arg = norm(c.args[0])
+                ctx.ob(R, ls.qname, f"formulation {f_lit!r}, back-end {t_lit!r}: the matrix handed to {meth.split('.')[-1]} is the pure pressure matrix", arg in spd,
+                       f"`{norm(c)[:80]}` is given `{arg}`, which is not the result of eliminate_lagrange_multiplier "
+                       f"({sorted(spd) or 'not called in this branch'}): the system still contains the Lagrange multiplier and is indefinite", c, evidence=True)
+    ctx.floor(R, 2)
+
+
 def run(ctx):
     m = ctx.model
     ctx.consult(WAS)
@@ -535,6 +572,7 @@ def run(ctx):
     rule_f(ctx)
     rule_g(ctx)
     rule_h(ctx)
+    rule_i(ctx, fa, ta, acc_f, acc_t, ls)
     # callers of linear_solve: a reused factorisation must belong to the matrix being solved (C04.g)
     from . import c04
     from .common import shared
